@@ -62,12 +62,13 @@ def add_phase_info(gaf_path, tsv_path, out_path):
         line_count += 1
 
         gaf_out.write(
-            "%s\t%s\t%s\t%s\t+\t%s\t%d\t%d\t%d\t%d\t%d\t%d"
+            "%s\t%s\t%s\t%s\t%s\t%s\t%d\t%d\t%d\t%d\t%d\t%d"
             % (
                 gaf_line.query_name,
                 gaf_line.query_length,
                 gaf_line.query_start,
                 gaf_line.query_end,
+                gaf_line.strand,
                 gaf_line.path,
                 gaf_line.path_length,
                 gaf_line.path_start,
@@ -85,7 +86,7 @@ def add_phase_info(gaf_path, tsv_path, out_path):
 
         if in_tsv and phase[gaf_line.query_name].haplotype != "none":
             gaf_out.write(
-                "\tps:Z:%s-%s\tht:Z:%s\t"
+                "\tps:Z:%s-%s\tht:Z:%s"
                 % (
                     phase[gaf_line.query_name].chr_name,
                     phase[gaf_line.query_name].phase_set,
@@ -96,10 +97,9 @@ def add_phase_info(gaf_path, tsv_path, out_path):
         else:
             gaf_out.write("\tps:Z:none\tht:Z:none")
 
+        # the tags (the cigar is one of them) are stored with their complete prefix, e.g. "cg:Z:"
         for k in gaf_line.tags.keys():
-            gaf_out.write("\t%s:%s" % (k, gaf_line.tags[k]))
-
-        gaf_out.write("\t%s" % gaf_line.cigar)
+            gaf_out.write("\t%s%s" % (k, gaf_line.tags[k]))
 
     logger.info(
         "INFO: Added phasing info (ps:Z and ht:Z) for %d reads out of %d GAF lines - (%d reads are missing in .tsv)"
